@@ -18,7 +18,6 @@ import (
 	"fmt"
 	"strings"
 	"testing"
-	"time"
 
 	"github.com/q191201771/lal/pkg/rtsp"
 	"pgregory.net/rapid"
@@ -26,41 +25,72 @@ import (
 	"verif/drv/pbt"
 	"verif/harness/inproc"
 	"verif/harness/lalclient"
+	"verif/harness/memconn"
 	"verif/ref/rtspref"
 )
 
-var creds = []string{"right", "right", "wrong-pass", "wrong-user", "missing", "wrong-scheme", "malformed", "replayed"}
+var creds = []string{"right", "right", "wrong-pass", "wrong-user", "missing", "wrong-scheme", "malformed", "replayed", "ignore-401", "skip-describe"}
 
 type RtspAuthCase struct {
 	Method  int    `json:"method"` // -1 authentication off, 0 Basic, 1 Digest
 	User    string `json:"user"`
 	Pass    string `json:"pass"`
 	Cred    string `json:"cred"`
-	Repeat  int    `json:"repeat"`  // right: further fresh connections presenting valid credentials
-	Variant int    `json:"variant"` // malformed shape
+	Repeat  int    `json:"repeat"`          // right: further fresh connections presenting valid credentials
+	Variant int    `json:"variant"`         // malformed shape
+	Ws      bool   `json:"ws,omitempty"`    // RTSP over WebSocket (rtsp.WebsocketServer)
+	Uri     int    `json:"uri,omitempty"`   // index into rtspAuthURIs (stream name / query of the request URI)
+	Order   int    `json:"order,omitempty"` // layout of the Digest header fields
+}
+
+// stream names and queries of the request URI (the Digest uri field and HA2 follow the request URI)
+var rtspAuthURIs = []struct{ stream, query string }{
+	{"c14rtsp", ""},
+	{"c14rtsp", "?a=b,c"},
+	{"C14-Rt_sp.2", ""},
+	{"c14rtsp", "?token=x%3Dy&u=v,w"},
+	{"c14rtsp", "?k=%22q%22&sp=a%20b"},
+	{"rt,sp=1", ""},
+}
+
+func (c RtspAuthCase) uri() (stream, uri string) {
+	u := rtspAuthURIs[((c.Uri%len(rtspAuthURIs))+len(rtspAuthURIs))%len(rtspAuthURIs)]
+	return u.stream, "rtsp://127.0.0.1:5544/live/" + u.stream + u.query
 }
 
 func genRtspAuth(t *rapid.T) RtspAuthCase {
 	c := RtspAuthCase{}
 	c.Method = rapid.SampledFrom([]int{-1, 0, 0, 0, 1, 1, 1}).Draw(t, "method")
-	c.User = rapid.StringMatching(`[A-Za-z0-9_.@-]{1,10}`).Draw(t, "user")
-	switch rapid.IntRange(0, 5).Draw(t, "passClass") {
+	switch rapid.IntRange(0, 3).Draw(t, "userClass") {
+	case 0:
+		c.User = rapid.StringMatching(`[A-Za-z0-9_.@-]{1,10}`).Draw(t, "user")
+	case 1:
+		// separators of the Digest header syntax, spaces, a quote (sent as \" inside the quoted-string), non-ASCII
+		c.User = rapid.StringMatching(`[a-z0-9 ,="üя]{1,10}`).Draw(t, "user")
+		c.User = strings.ReplaceAll(c.User, `="`, `= "`) // never spells the start of another header field
+	default:
+		c.User = rapid.SampledFrom([]string{"a,b", "a=b", "a b", `a"b`, "üser", "u, realm", "ad min=1,2", `"`, ","}).Draw(t, "user")
+	}
+	switch rapid.IntRange(0, 6).Draw(t, "passClass") {
 	case 0:
 		c.Pass = rapid.StringMatching(`[A-Za-z0-9]{1,12}`).Draw(t, "pass")
 	case 1:
 		c.Pass = rapid.StringMatching(`[A-Za-z0-9]{0,5}:[A-Za-z0-9:]{0,5}`).Draw(t, "pass")
 	case 2:
 		c.Pass = ""
+	case 3:
+		c.Pass = rapid.SampledFrom([]string{"пароль", "p,a=s \"s", "ü:ü", " lead", "trail "}).Draw(t, "pass")
 	default:
 		c.Pass = rapid.StringMatching(`[ -~]{1,12}`).Draw(t, "pass")
 	}
 	c.Cred = rapid.SampledFrom(creds).Draw(t, "cred")
 	c.Repeat = rapid.IntRange(0, 2).Draw(t, "repeat")
 	c.Variant = rapid.IntRange(0, 7).Draw(t, "variant")
+	c.Ws = rapid.IntRange(0, 3).Draw(t, "ws") == 0
+	c.Uri = rapid.IntRange(0, len(rtspAuthURIs)-1).Draw(t, "uri")
+	c.Order = rapid.IntRange(0, 2).Draw(t, "order")
 	return c
 }
-
-const rtspAuthURI = "rtsp://127.0.0.1:5544/live/c14rtsp"
 
 type describeResult struct {
 	sdp       bool
@@ -76,13 +106,32 @@ func (d describeResult) String() string {
 	return fmt.Sprintf("status %d, sdp=%v", d.status, d.sdp)
 }
 
-func describe(rc *rtspref.Client, authorization string) describeResult {
+func describe(rc *rtspref.Client, uri, authorization string) describeResult {
 	rc.Authorization = authorization
-	r, err := rc.Do("DESCRIBE", rtspAuthURI, map[string]string{"Accept": "application/sdp"}, nil)
+	r, err := rc.Do("DESCRIBE", uri, map[string]string{"Accept": "application/sdp"}, nil)
 	if err != nil {
 		return describeResult{err: err}
 	}
 	return describeResult{sdp: r.Status == 200 && strings.Contains(string(r.Body), "m="), status: r.Status, challenge: r.Headers["www-authenticate"]}
+}
+
+func md5x(s string) string { return md5hex(s) }
+
+// digestHeader renders RFC 2617 Digest credentials (no qop); quotes and backslashes inside quoted-strings are
+// escaped, the field layout varies.
+func digestHeader(user, pass, realm, nonce, method, uri string, order int) string {
+	resp := md5x(md5x(user+":"+realm+":"+pass) + ":" + nonce + ":" + md5x(method+":"+uri))
+	q := func(s string) string {
+		return `"` + strings.ReplaceAll(strings.ReplaceAll(s, `\`, `\\`), `"`, `\"`) + `"`
+	}
+	f := []string{"username=" + q(user), "realm=" + q(realm), "nonce=" + q(nonce), "uri=" + q(uri), "response=" + q(resp)}
+	switch order % 3 {
+	case 1:
+		return "Digest " + strings.Join([]string{f[4], f[3], f[2], f[1], f[0]}, ",")
+	case 2:
+		return "Digest " + strings.Join([]string{f[1], f[2], f[3], f[4], "algorithm=MD5", f[0]}, ", ")
+	}
+	return "Digest " + strings.Join(f, ", ")
 }
 
 // header builds the Authorization value of the case for the given challenge.
@@ -94,9 +143,10 @@ func (c RtspAuthCase) header(kind string, challenge string) string {
 	if nonce == "" {
 		nonce = "c14c14c14c14c14c14c14c14c14c14c1"
 	}
+	_, uri := c.uri()
 	build := func(method int, user, pass string) string {
 		if method == 1 {
-			return rtspref.DigestAuth(user, pass, realm, nonce, "DESCRIBE", rtspAuthURI)
+			return digestHeader(user, pass, realm, nonce, "DESCRIBE", uri, c.Order)
 		}
 		return rtspref.BasicAuth(user, pass)
 	}
@@ -123,7 +173,7 @@ func (c RtspAuthCase) header(kind string, challenge string) string {
 		case 2:
 			return "Digest "
 		case 3:
-			return fmt.Sprintf(`Digest username="%s", realm="%s", nonce="%s", uri="%s"`, c.User, realm, nonce, rtspAuthURI)
+			return fmt.Sprintf(`Digest username="%s", realm="%s", nonce="%s", uri="%s"`, "u", realm, nonce, uri)
 		case 4:
 			return "Basic" + b64
 		case 5:
@@ -131,7 +181,7 @@ func (c RtspAuthCase) header(kind string, challenge string) string {
 		case 6:
 			return "Bearer " + b64
 		default:
-			return fmt.Sprintf(`Digest username="%s", realm="%s", nonce="%s", uri="%s", response=""`, c.User, realm, nonce, rtspAuthURI)
+			return fmt.Sprintf(`Digest username="%s", realm="%s", nonce="%s", uri="%s", response=""`, "u", realm, nonce, uri)
 		}
 	}
 	panic(pbt.HarnessError{Msg: "bad cred " + kind})
@@ -150,20 +200,26 @@ func (c RtspAuthCase) methodName() string {
 func runRtspAuth(c RtspAuthCase) *pbt.Violation {
 	s := inproc.New(inproc.Config{RtspAuth: rtsp.ServerAuthConfig{AuthEnable: c.Method >= 0, AuthMethod: maxInt(c.Method, 0), UserName: c.User, PassWord: c.Pass}})
 	defer s.Close()
-	feeder := lalclient.NewPublisher(s, "live", "c14rtsp", 0)
+	defer closeWsConns(s)
+	stream, uri := c.uri()
+	feeder := lalclient.NewPublisher(s, "live", stream, 0)
 	if feeder.Err != nil {
 		return inconclusive("rtsp-auth-feeder")
 	}
 	sendItems(feeder, headerItems())
 	sendItems(feeder, gopItems(0, 1))
 	feeder.WaitIdle()
-
-	open := func() *rtspref.Client {
-		conn := s.RtspConn()
-		_ = conn.SetReadDeadline(time.Now().Add(lalclient.DeliverTimeout))
-		return rtspref.NewClient(conn)
+	gop := uint32(1)
+	push := func() {
+		gop++
+		sendItems(feeder, gopItems(gop*1000, gop))
+		gop++
+		sendItems(feeder, gopItems(gop*1000, gop))
+		feeder.WaitIdle()
 	}
-	ctx := fmt.Sprintf("method=%s user=%q password=%q", c.methodName(), c.User, c.Pass)
+
+	open := func() (*memconn.Conn, *rtspref.Client) { return rtspClient(s, c.Ws) }
+	ctx := fmt.Sprintf("method=%s user=%q password=%q uri=%s ws=%v", c.methodName(), c.User, c.Pass, uri, c.Ws)
 	validRefused := func(kind string, d describeResult, hdr string) *pbt.Violation {
 		sig := "rtsp-auth/valid-" + c.methodName() + "-refused"
 		if c.Method == 0 && strings.Contains(c.Pass, ":") {
@@ -171,14 +227,35 @@ func runRtspAuth(c RtspAuthCase) *pbt.Violation {
 		}
 		return pbt.V(sig, "DESCRIBE with valid %s credentials (%s, Authorization: %s) did not get the stream description: %s [%s]", c.methodName(), kind, hdr, d, ctx)
 	}
+	// unauthorised: a client that was not given the stream description goes on to SETUP / PLAY
+	unauthorised := func(conn *memconn.Conn, rc *rtspref.Client, how string) (*pbt.Violation, bool) {
+		n, trace := playAnyway(conn, rc, uri, push)
+		if n < 0 {
+			return inconclusive("rtsp-auth-play-anyway"), true
+		}
+		if n > 0 {
+			return pbt.V("rtsp-auth/media-without-credentials", "a client that %s went on to SETUP / PLAY and received %d RTP frames (%s) [%s]", how, n, trace, ctx), true
+		}
+		if l, what := listed(s, stream, conn.LocalAddr().String()); l {
+			return pbt.V("rtsp-auth/unauthorised-session-listed", "a client that %s went on to SETUP / PLAY (%s) and is listed by the stat API as %s [%s]", how, trace, what, ctx), true
+		}
+		return nil, false
+	}
 
 	// one connection: anonymous DESCRIBE, then DESCRIBE with the case's Authorization header
 	attempt := func(kind string) (hdr string, v *pbt.Violation, stop bool) {
-		rc := open()
-		if _, err := rc.Do("OPTIONS", rtspAuthURI, nil, nil); err != nil {
+		conn, rc := open()
+		if kind == "skip-describe" {
+			if c.Method < 0 {
+				return "", nil, false // without authentication nothing is promised about a client that skips DESCRIBE
+			}
+			v, stop := unauthorised(conn, rc, "never sent DESCRIBE")
+			return "", v, stop
+		}
+		if _, err := rc.Do("OPTIONS", uri, nil, nil); err != nil {
 			return "", inconclusive("rtsp-auth-options"), true
 		}
-		d0 := describe(rc, "")
+		d0 := describe(rc, uri, "")
 		if isTimeout(d0.err) {
 			return "", inconclusive("rtsp-auth-describe"), true
 		}
@@ -186,13 +263,13 @@ func runRtspAuth(c RtspAuthCase) *pbt.Violation {
 			if !d0.sdp {
 				return "", pbt.V("rtsp-auth/auth-off-refused", "authentication is off but an anonymous DESCRIBE did not get the stream description: %s", d0), true
 			}
-			if kind == "missing" {
+			if kind == "missing" || kind == "ignore-401" {
 				return "", nil, false
 			}
 			// credentials nobody asked for do not hurt
-			rc = open()
+			_, rc = open()
 			hdr = c.header(kind, "")
-			d1 := describe(rc, hdr)
+			d1 := describe(rc, uri, hdr)
 			if isTimeout(d1.err) {
 				return "", inconclusive("rtsp-auth-describe"), true
 			}
@@ -207,12 +284,16 @@ func runRtspAuth(c RtspAuthCase) *pbt.Violation {
 		if kind == "missing" {
 			return "", nil, false
 		}
+		if kind == "ignore-401" {
+			v, stop := unauthorised(conn, rc, fmt.Sprintf("sent DESCRIBE without credentials (%s)", d0))
+			return "", v, stop
+		}
 		if d0.err != nil {
 			// no challenge, connection gone: present the credentials on a new connection
-			rc = open()
+			conn, rc = open()
 		}
 		hdr = c.header(kind, d0.challenge)
-		d1 := describe(rc, hdr)
+		d1 := describe(rc, uri, hdr)
 		if isTimeout(d1.err) {
 			return "", inconclusive("rtsp-auth-describe"), true
 		}
@@ -223,6 +304,15 @@ func runRtspAuth(c RtspAuthCase) *pbt.Violation {
 		case !valid && d1.sdp:
 			return hdr, pbt.V("rtsp-auth/invalid-credentials-accepted", "DESCRIBE with %s credentials (Authorization: %s) got the stream description [%s]", kind, hdr, ctx), true
 		}
+		if !valid && c.Variant%2 == 0 {
+			// refused credentials: the client tries to play all the same (same connection if it is still there)
+			if d1.err != nil {
+				conn, rc = open()
+			}
+			if v, stop := unauthorised(conn, rc, fmt.Sprintf("was refused with %s credentials (%s)", kind, d1)); v != nil || stop {
+				return hdr, v, true
+			}
+		}
 		return hdr, nil, false
 	}
 
@@ -231,8 +321,8 @@ func runRtspAuth(c RtspAuthCase) *pbt.Violation {
 		return v
 	}
 	if c.Method >= 0 && c.Cred == "replayed" {
-		rc := open()
-		d := describe(rc, hdr)
+		_, rc := open()
+		d := describe(rc, uri, hdr)
 		if isTimeout(d.err) {
 			return inconclusive("rtsp-auth-describe")
 		}
@@ -267,7 +357,29 @@ func classifyRtspAuth(c RtspAuthCase) (bool, []string) {
 	case strings.ContainsAny(c.Pass, " \"',=\\"):
 		pc = "special"
 	}
-	labels := []string{"method:" + c.methodName(), "cred:" + c.Cred, "method+cred:" + c.methodName() + "/" + c.Cred, "password:" + pc, fmt.Sprintf("repeat:%d", c.Repeat)}
+	uc := "plain"
+	switch {
+	case strings.ContainsAny(c.User, `"`):
+		uc = "quote"
+	case strings.ContainsAny(c.User, ",= "):
+		uc = "separator"
+	case c.User != strings.ToValidUTF8(c.User, "") || len(c.User) != len([]rune(c.User)):
+		uc = "non-ascii"
+	}
+	_, uri := c.uri()
+	uq := "plain"
+	if strings.ContainsAny(uri[7:], ",=%") {
+		uq = "comma-equals-escape"
+	}
+	tr := "tcp"
+	if c.Ws {
+		tr = "websocket"
+	}
+	labels := []string{"method:" + c.methodName(), "cred:" + c.Cred, "method+cred:" + c.methodName() + "/" + c.Cred, "password:" + pc, fmt.Sprintf("repeat:%d", c.Repeat),
+		"user:" + uc, "uri:" + uq, "transport:" + tr}
+	if c.Method == 1 {
+		labels = append(labels, fmt.Sprintf("digest-layout:%d", c.Order%3))
+	}
 	if c.Cred == "malformed" {
 		labels = append(labels, fmt.Sprintf("malformed:%d", c.Variant))
 	}
